@@ -59,6 +59,8 @@ func runC01(l *core.Ledger) {
 			c06P1(l, ep)
 		}
 	})
+	l.Rule("C01-R10", "a node the per-node function leaves out is not asked (C02-T4 re-run): the skip is decided by the validity of the per-node result, which also holds for a typed nil - a node that receives an empty request nobody made answers it, and that answer is shown to the quorum function under the node's id")
+	l.With(map[string]string{"C02-T4": "C01-R10"}, func() { c02T4(l, r) })
 	l.With(map[string]string{"C05-M1": "C01-R8"}, func() { c05M1(l, r, eps) })
 	// the reply channel belongs to this call alone (made by it, never shared or recycled)
 	l.With(map[string]string{"C05-M6": "C01-R8"}, func() { c05M6(l, r, eps) })
